@@ -76,6 +76,17 @@ Theorem shown_not_below_cutoff : forall o pr n v, 0 < o_nodecutoff o ->
 Proof. exact shown_not_below_cutoff_lemma. Qed.
 Print Assumptions shown_not_below_cutoff.
 
+(* and the converse when no node count is asked for (nodecount 0, e.g. -nodecount=0 or callgrind):
+   every entry of the untrimmed graph that is not below the cutoff IS shown, with its numbers; with
+   [text_report_nodes_unchanged] and [shown_not_below_cutoff] the shown SET is then exactly the set
+   of untrimmed entries at or above the cutoff ("removed exactly those below the cutoff") *)
+Theorem above_cutoff_is_shown : forall o pr n v, o_nodecount o = 0 ->
+  In (n, v) (g_nodes (report_graph o (rebuild o pr) None)) ->
+  (abs64 (nv_cum v) <? o_nodecutoff o) = false ->
+  In (n, v) (g_nodes (t_g (new_trimmed_text o pr))).
+Proof. exact above_cutoff_is_shown_lemma. Qed.
+Print Assumptions above_cutoff_is_shown.
+
 (* "the entries removed are exactly those below the cutoff or outside the top N": full statement.
    Proved above: what is shown is unchanged ([text_report_nodes_unchanged]); the exact identity of
    the shown list is evaluated by the specification checker on every generated case
